@@ -395,6 +395,11 @@ pub fn sign_message(t: &mut Tape, mut l: Logical, node: &Node, acct: &Account, a
     if t.chance(20) {
         signed.push("x-not-in-request".into());
     }
+    if t.chance(15) {
+        // HTTP/2 style: the signer lists the :authority pseudo-header instead of host
+        signed.retain(|h| h != "host");
+        signed.push(":authority".into());
+    }
     if k.honour_requirements {
         for a in &node.cfg.always {
             if !signed.contains(a) {
@@ -431,7 +436,11 @@ pub fn sign_message(t: &mut Tape, mut l: Logical, node: &Node, acct: &Account, a
         s3: node.cfg.s3,
         fold: node.cfg.fold,
     };
-    let quirks = Quirks::default();
+    let mut quirks = Quirks::default();
+    if carrier == Carrier::Query && node.cfg.fold && folds(&l, true) && !l.body_defect && t.chance(4) {
+        // a presigned *form*: the X-Amz-* parameters are posted in the body and folded in by the node
+        quirks.auth_pairs_in_body = true;
+    }
     sign(&l, &mut a, &quirks, &acct.secret);
     Signed {
         msg: Message {
